@@ -118,8 +118,9 @@ func genScript(r *rand.Rand, n int) (*c05Script, refmodel.Table) {
 			case 2:
 				d.Tags = []string{choose(r, c05Tags)}
 			}
-			if !m.WouldMatchWeight(d) {
-				// try to aim the command at an existing route so that weight commands are exercised
+			if !m.WouldMatchWeight(d) && r.Intn(4) > 0 {
+				// mostly aim the command at an existing route so that weight commands are exercised; a command that
+				// matches nothing stays in now and then: it must change nothing
 				continue
 			}
 		}
